@@ -22,6 +22,11 @@ func (group *Group) startHlsIfNeeded() {
 		return
 	}
 
+	if !isSafeStreamNameForFile(group.streamName) {
+		Log.Errorf("[%s] stream name invalid for file path, hls disabled for this stream. streamName=%s", group.UniqueKey, group.streamName)
+		return
+	}
+
 	group.hlsMuxer = hls.NewMuxer(group.streamName, &group.config.HlsConfig.MuxerConfig, group)
 	group.hlsMuxer.Start()
 }
